@@ -79,7 +79,7 @@ func init() {
 		m.assume(m.ts.Cmp(OpSLe, m.ts.Const(64, uint64(lo)), l))
 		m.assume(m.ts.Cmp(OpSLe, l, m.ts.Const(64, uint64(hi))))
 		m.res.Assumes = appendUniq(m.res.Assumes, fmt.Sprintf("%d <= len(%s) <= %d", lo, name, hi))
-		return Str{Opaque: &OpaqueStr{Len: l, Chunks: []string{l.Name}}}
+		return Str{Opaque: &OpaqueStr{Len: l, Segs: []Seg{{ID: l.Name, Len: l}}}}
 	}
 	I[rtPkg+"Choose"] = func(th *Thread, fn *ssa.Function, args []Value) Value {
 		m := th.m
@@ -630,7 +630,8 @@ func init() {
 			return Str{C: durationString(t.Signed())}
 		}
 		// rendering of a symbolic duration: opaque, identified by the term
-		return Str{Opaque: &OpaqueStr{Len: th.m.ts.UF("uf_durlen", 64, t), Chunks: []string{fmt.Sprintf("dur(n%d)", t.id)}}}
+		ln := th.m.ts.UF("uf_durlen", 64, t)
+		return Str{Opaque: &OpaqueStr{Len: ln, Segs: []Seg{{ID: fmt.Sprintf("dur(n%d)", t.id), Tok: th.m.ts.UF("uf_durtok", 64, t), Len: ln}}}}
 	}
 	I["time.NewTicker"] = func(th *Thread, fn *ssa.Function, args []Value) Value {
 		return th.m.newTicker(th, fn)
@@ -849,8 +850,10 @@ func (m *Machine) sprintfSymbolic(th *Thread, format string, args Slice) Value {
 				continue
 			}
 			// symbolic number: opaque rendering identified by (spec, verb, term)
-			o := &OpaqueStr{Len: m.ts.UF("uf_fmtlen_"+sanitizeName(spec+string(verb)), 64, m.ts.ZExt(m.boolToBV(v), 64)),
-				Chunks: []string{fmt.Sprintf("fmt(%%%s%c,n%d)", spec, verb, v.id)}}
+			arg := m.ts.ZExt(m.boolToBV(v), 64)
+			ln := m.ts.UF("uf_fmtlen_"+sanitizeName(spec+string(verb)), 64, arg)
+			o := &OpaqueStr{Len: ln, Segs: []Seg{{ID: fmt.Sprintf("fmt(%%%s%c,n%d)", spec, verb, v.id),
+				Tok: m.ts.UF("uf_fmttok_"+sanitizeName(spec+string(verb)), 64, arg), Len: ln}}}
 			out = th.strConcat(out.(Str), Str{Opaque: o})
 			continue
 		}
